@@ -221,6 +221,7 @@ pub fn scenario(g: &mut G, ctx: &RunCtx) -> RunReport {
         read_timeout_ms: 30_000,
         extra_headers: headers,
         read_api: 0,
+        text_charset: None,
         damage: damage.to_string(),
         cut_at: None,
     };
